@@ -25,6 +25,12 @@ THEOREMS = ["HgVerif.Tie.tie_pqFull",
     "HgVerif.PushQueueN.nothing_accepted_after_stop_n", "HgVerif.PushQueueN.conflating_delivers_latest_n",
     "HgVerif.PushQueueN.progress_n", "HgVerif.PushQueueN.eventually_delivered_n",
     "HgVerif.PushQueueN.per_source_sampling_loses_wakeup", "HgVerif.PushQueueN.one_reset_per_cycle_keeps_wakeup",
+    # conflating policy with a COLLECTION output: accumulator of deltas
+    "HgVerif.PushQueueN.dinv_reach", "HgVerif.PushQueueN.noop_send_keeps_pending", "HgVerif.PushQueueN.admission_keeps_pending",
+    "HgVerif.PushQueueN.conflating_pending_iff_effective", "HgVerif.PushQueueN.conflating_delivered_is_window_fold",
+    "HgVerif.PushQueueN.conflating_accepted_conserved", "HgVerif.PushQueueN.no_lost_wakeup_dict",
+    "HgVerif.PushQueueN.take_delivers_window", "HgVerif.PushQueueN.conflating_accepted_effective_delivered",
+    "HgVerif.PushQueueN.assigning_pending_loses_accepted_delta", "HgVerif.PushQueueN.oring_pending_delivers_accepted_delta",
 ]
 CXX_TARGETS = ["hgv_push", "hgv_pushn"]
 RULE = ("schedules of whole operations (start, try_send / send_blocking from producers 1-3, evaluation cycles, "
@@ -37,9 +43,14 @@ RULE = ("schedules of whole operations (start, try_send / send_blocking from pro
         "hand (c) or as the loop would (L: cycles while the flag is raised), with backlogs of >= 2 values on a queue source "
         "that is NOT the last of the push prefix, bounded sources kept full by try_send, producers on several sources, one "
         "parked sender per source; thorough adds every order of <= 3 messages on 2 sources x 4 cycles for 12 capacity / send-kind "
-        "configurations; multi-threads runs the real loop with one real producer thread per source. A case is non-trivial "
+        "configurations; multi-threads runs the real loop with one real producer thread per source. Stream multi-dict: "
+        "conflating sources with a COLLECTION output (TSD<int,TS<int>>, policy letter d), alone or next to queue / burst / "
+        "scalar-conflating sources: sends carry collection deltas (set k=v, remove k present or ABSENT, the empty delta, "
+        "combinations), with windows shaped effective-then-no-ops (the no-op is the LAST send before the take), no-op "
+        "first, no-ops only, set-then-remove, empty-delta-validates, and random mixes. A case is non-trivial "
         "when values of >= 2 producers were delivered, or a sender parked, or a send was refused at capacity, or (multi) a "
-        "non-last queue source entered a cycle with >= 2 pending or >= 2 sources delivered in one cycle; distinct by sha1 "
+        "non-last queue source entered a cycle with >= 2 pending or >= 2 sources delivered in one cycle, or (multi-dict) "
+        "an accepted delta without effect was the last send of a window that holds an effective one; distinct by sha1 "
         "of the case text")
 TRUSTED = [
     "C++ memory model, std::mutex / condition_variable semantics, thread scheduling: the harness executes the "
@@ -75,7 +86,12 @@ LEVEL_TEXT = ("Kernel-checked invariants over ALL interleavings, any number of p
               "shared-flag no-lost-wake-up: a pending value on any source k => flag set, or a mark due on some source, or "
               "the cycle in progress has not evaluated k yet, or a re-arm is owed, or stop requested; under weak fairness "
               "every accepted value of every source is delivered), with a kernel-checked witness that sampling the flag "
-              "per source instead of once per cycle loses a wake-up.")
+              "per source instead of once per cycle loses a wake-up.  Conflating sources with a collection output: the "
+              "accumulator is the fold of the window's accepted deltas (no-ops skipped), pending holds iff one of them had "
+              "effect, an accepted send never clears pending, every delivered value is the fold of its window, accepted "
+              "deltas are conserved (delivered windows ++ current window), and under weak fairness the window holding an "
+              "effective delta is delivered next; with a kernel-checked witness that ASSIGNING pending from modified() "
+              "loses an accepted delta.")
 LEVEL_NOTE = ("Proof of the protocol logic; PARTIAL for the runtime remainder: the C++ memory model, condition-variable "
               "behaviour and real thread scheduling are trusted. The step function of the model is tied to "
               "push_source_node.cpp / executor.cpp / graph.cpp by composing it per operation and comparing with the real "
@@ -237,7 +253,133 @@ def streams(rng, tier, seed):
                              "stressn %d %d %s" % (rng.choice([30, 120, 300]), rng.choice([0, 1, 2]), " ".join(map(str, caps)))],
                             {"kind": "multi-threads"}))
     out.append(Stream("multi-threads", [os.path.join(BUILD, "hgv_pushn")], None, mstress, timeout=1800))
+    # conflating sources with a collection output (accumulator of deltas)
+    dcorpus = [c for c in mcorpus if any(" d" in l for l in c.lines if l.startswith("cfgn"))]
+    out[-2].cases = [c for c in out[-2].cases if c not in dcorpus]
+    mdict = [gen_multi_dict(rng, 600000 + i) for i in range(260 if q else 7000)]
+    out.append(Stream("multi-dict", [os.path.join(BUILD, "hgv_pushn")], model_cmd("C16N"), dcorpus + mdict, timeout=1800))
     return out
+
+
+# ---------------------------------------------------------------- conflating with a collection output: generator
+
+def gen_multi_dict(rng, idx):
+    """1-3 push sources, at least one conflating source with a TSD output (policy letter d); its sends carry
+    collection deltas.  `have[s]` is the generator's idea of the keys of the current window (fresh per take)."""
+    k = rng.choice([1, 1, 1, 2, 2, 3])
+    pol = [rng.choice(["q", "q", "q", "b", "c", "d"]) for _ in range(k)]
+    pol[rng.randrange(k)] = "d"
+    cap = [rng.choice([0, 0, 1, 2, 3]) for _ in range(k)]
+    dsrc = [s for s in range(k) if pol[s] == "d"]
+    others = [s for s in range(k) if pol[s] != "d"]
+    steps, v = [], [0]
+    have = {s: None for s in dsrc}           # None = fresh accumulator; else the set of keys of the window
+    parked = [None] * k
+    rstop = stopped = False
+
+    def val():
+        v[0] += 1
+        return v[0]
+
+    def send(s, tok):
+        steps.append("%s%d.%d:%s" % (rng.choice("ttttb"), s, rng.randint(1, 3), tok))
+
+    def eff_set(s):
+        key = rng.randint(1, 4)
+        if not (stopped or rstop):
+            have[s] = (have[s] or set()) | {key}
+        return "%d=%d" % (key, val())
+
+    def noop(s):
+        """a delta that has no effect on the generator's idea of the accumulator"""
+        absent = [x for x in range(1, 10) if x not in (have[s] or set())]
+        if have[s] is not None and rng.random() < 0.3:
+            return "e"
+        ks = rng.sample(absent, rng.choice([1, 1, 2]))
+        return ",".join("-%d" % x for x in ks)
+
+    def rem_present(s):
+        if not have[s]:
+            return noop(s)
+        key = rng.choice(sorted(have[s]))
+        if not (stopped or rstop):
+            have[s] = have[s] - {key}
+        return "-%d" % key
+
+    def take():
+        steps.append(rng.choice(["c", "c", "L"]))
+        if not rstop and not stopped:
+            for s in dsrc:
+                have[s] = None
+            for s in range(k):
+                parked[s] = None
+
+    def other_traffic():
+        if others and rng.random() < 0.5:
+            s = rng.choice(others)
+            for _ in range(rng.randint(1, 3)):
+                steps.append("t%d.%d:%d" % (s, rng.choice([p for p in (1, 2, 3) if p != parked[s]]), val()))
+
+    if rng.random() < 0.1:
+        send(rng.choice(dsrc), "1=%d" % val())              # before start: refused
+    steps.append("S")
+    for _ in range(rng.randint(3, 9)):
+        s = rng.choice(dsrc)
+        r = rng.random()
+        if r < 0.30:
+            # effective send(s), then accepted deltas WITHOUT effect as the last sends before the take
+            for _ in range(rng.randint(1, 2)):
+                send(s, eff_set(s))
+            other_traffic()
+            for _ in range(rng.randint(1, 3)):
+                send(s, noop(s))
+            take()
+        elif r < 0.40:
+            send(s, noop(s)); send(s, eff_set(s)); other_traffic(); take()            # the no-op comes first
+        elif r < 0.48:
+            for _ in range(rng.randint(1, 2)):
+                send(s, noop(s) if have[s] is None else noop(s))                      # a window of no-ops only
+            if have[s] is None and steps[-1].endswith(":e"):
+                have[s] = set()
+            take()
+        elif r < 0.58:
+            send(s, eff_set(s)); send(s, rem_present(s))                              # set then remove: an empty valid value
+            if rng.random() < 0.5:
+                send(s, noop(s))
+            take()
+        elif r < 0.66:
+            send(s, "e")                                                              # the empty delta validates a fresh accumulator
+            if have[s] is None and not (stopped or rstop):
+                have[s] = set()
+            for _ in range(rng.randint(0, 2)):
+                send(s, noop(s))
+            take()
+        elif r < 0.76:
+            a, b = eff_set(s), eff_set(s)
+            send(s, a + "," + b)                                                      # combined deltas
+            absent = [x for x in range(1, 10) if x not in (have[s] or set())]
+            send(s, "-%d,%s" % (rng.choice(absent), eff_set(s)))
+            if rng.random() < 0.6:
+                send(s, noop(s))
+            take()
+        elif r < 0.88:
+            for _ in range(rng.randint(1, 5)):
+                c = rng.random()
+                send(s, eff_set(s) if c < 0.45 else rem_present(s) if c < 0.65 else noop(s))
+            other_traffic()
+            take()
+        elif r < 0.93:
+            other_traffic(); take()
+        elif r < 0.955:
+            steps.append("r"); rstop = True
+        elif r < 0.98:
+            steps.append("X"); stopped = True
+        else:
+            steps.append("S")
+    if not stopped and not rstop and rng.random() < 0.6:
+        steps.append("L")
+    cfg = " ".join("%d %s" % (cap[s], pol[s]) for s in range(k))
+    return Case(["case %d" % idx, "cfgn " + cfg, "sched " + " ".join(steps)], {"kind": "multi-dict"})
 
 
 # ---------------------------------------------------------------- several push sources: generator
@@ -601,7 +743,50 @@ def _analyse(case, out):
 # ---------------------------------------------------------------- several push sources: monitor
 
 _MPART = re.compile(r"^(\S+)((?: \+\S+)*) p([\d,]+) f([01])$")
-_MSEND = re.compile(r"^([tb])(\d+)\.(\d+):(\d+)=(\S+)$")
+_MSEND = re.compile(r"^([tb])(\d+)\.(\d+):(\S+)=(1|0|B|busy|E)$")
+
+
+def _delta_parse(tok):
+    """'<k>=<v>' | '-<k>' | 'e' | comma list -> (removed keys, {key: value})"""
+    rem, sets = [], {}
+    if tok != "e":
+        for it in tok.split(","):
+            if it.startswith("-"):
+                rem.append(int(it[1:]))
+            else:
+                a, b = it.split("=")
+                sets[int(a)] = int(b)
+    return rem, sets
+
+
+def _delta_canon(tok):
+    rem, sets = _delta_parse(tok)
+    items = ["-%d" % x for x in sorted(set(rem))] + ["%d=%d" % (a, sets[a]) for a in sorted(sets)]
+    return ",".join(items) or "e"
+
+
+def _delta_apply(acc, tok):
+    """the reference reading of one accepted collection delta on the window's accumulator (None = fresh):
+    -> (accumulator, had effect).  Sets always have effect; removals only if a removed key is held (they
+    are applied before the sets); the empty delta only validates a fresh accumulator."""
+    rem, sets = _delta_parse(tok)
+    if sets:
+        eff = True
+    elif rem:
+        eff = acc is not None and any(x in acc for x in rem)
+    else:
+        eff = acc is None
+    if not eff:
+        return acc, False
+    m = dict(acc or {})
+    for x in rem:
+        m.pop(x, None)
+    m.update(sets)
+    return m, True
+
+
+def _dict_str(m):
+    return "{" + ",".join("%d:%d" % (a, m[a]) for a in sorted(m)) + "}"
 _MCOMP = re.compile(r"^b(\d+)\.(\d+):(\d+)=(\S)$")
 _MCYCLE = re.compile(r"^c(\d+):(\S+)$")
 
@@ -622,9 +807,18 @@ class _MState:
         self.last_cycle = 0
         self.bad, self.feats = [], set()
         self.senders = set()
+        # conflating sources with a collection output (policy d): the current window, by the reference reading
+        self.acc = [None] * self.k          # accumulator (None = fresh)
+        self.win = [[] for _ in caps]       # accepted deltas since the last take: (token, had effect)
 
     def bounded(self, s):
-        return self.cap[s] > 0 and self.pol[s] != "c"
+        return self.cap[s] > 0 and self.pol[s] not in "cd"
+
+    def effective(self, s):
+        return any(e for _, e in self.win[s])
+
+    def fresh_window(self, s):
+        self.acc[s], self.win[s] = None, []
 
     def running(self):
         return self.started and not self.stopped
@@ -679,6 +873,36 @@ class _MState:
                 self.feats.add("backlog-nonlast-queue")
                 if self.f == 1:
                     self.feats.add("rearm-nonlast")
+            if self.pol[s] == "d":
+                eff = self.effective(s)
+                toks = [x for x, _ in self.win[s]]
+                if d == "-":
+                    if eff and self.f == 1:
+                        self.bad.append("[lost] cycle %d: conflating source %d accepted the effective delta(s) %s (window %s) and the "
+                                        "flag was set, but it delivered nothing" % (t, s, [x for x, e in self.win[s] if e][:4], toks[:6]))
+                    continue
+                delivering += 1
+                want = _dict_str(self.acc[s] or {})
+                if not eff:
+                    self.bad.append("[confl] cycle %d: conflating source %d delivered %s although no accepted delta of its window %s "
+                                    "had effect" % (t, s, d, toks[:6]))
+                elif d != want:
+                    self.bad.append("[confl] cycle %d: conflating source %d delivered %s, but the merged state of its window's "
+                                    "accepted deltas %s is %s" % (t, s, d, toks[:8], want))
+                if eff and self.win[s] and not self.win[s][-1][1]:
+                    self.feats.add("dict-noop-last")
+                if eff and self.win[s] and not self.win[s][0][1]:
+                    self.feats.add("dict-noop-first")
+                if d == "{}":
+                    self.feats.add("dict-empty-value")
+                self.feats.add("dict-delivered")
+                if self.times[s] and t <= self.times[s][-1]:
+                    self.bad.append("[once] source %d: delivery time %d not after %d" % (s, t, self.times[s][-1]))
+                self.times[s].append(t)
+                self.delivered[s].append(d)
+                self.p[s] = 0
+                self.fresh_window(s)
+                continue
             if d == "-":
                 if self.p[s] > 0 and self.f == 1:
                     self.bad.append("[lost] cycle %d: source %d had %d pending value(s) and the flag was set but it delivered nothing"
@@ -715,10 +939,14 @@ class _MState:
         if text in ("S", "S=-"):
             if text == "S":
                 self.started = True
+                for s in range(self.k):
+                    self.fresh_window(s)
             return True
         if text in ("X", "X=-"):
             if text == "X":
                 self.stopped = True
+                for s in range(self.k):
+                    self.fresh_window(s)           # the stop drops what is pending
             return True
         if text == "r":
             self.rstop = True
@@ -755,10 +983,29 @@ class _MState:
         if not m:
             bad.append("[trace] unreadable step %r" % text)
             return False
-        kind, s, prod, val, res = m.group(1), int(m.group(2)), int(m.group(3)), int(m.group(4)), m.group(5)
+        kind, s, prod, val, res = m.group(1), int(m.group(2)), int(m.group(3)), m.group(4), m.group(5)
         if s >= self.k:
             bad.append("[trace] send to source %d" % s)
             return False
+        isd = self.pol[s] == "d"
+        try:
+            val = _delta_canon(val) if isd else int(val)
+        except ValueError:
+            bad.append("[trace] payload %r of %s" % (val, text))
+            return False
+        if isd and res == "1":
+            self.acc[s], e = _delta_apply(self.acc[s], val)
+            if self.win[s] and not e and self.effective(s):
+                feats.add("dict-noop-after-effective")
+            if not e and not self.win[s]:
+                feats.add("dict-noop-opens-window")
+            self.win[s].append((val, e))
+            feats.add("dict-%s" % ("effective" if e else "noop"))
+            rem, sets = _delta_parse(val)
+            if e and rem and not sets:
+                feats.add("dict-remove-present")
+            if e and val == "e":
+                feats.add("dict-empty-validates")
         full = self.bounded(s) and self.p[s] >= self.cap[s]
         stopped_like = (not self.started) or self.stopped or self.rstop
         if res == "1":
@@ -802,7 +1049,20 @@ class _MState:
         for s in range(self.k):
             if self.bounded(s) and p[s] > self.cap[s]:
                 bad.append("[cap] source %d: %d values pending with capacity %d after %s" % (s, p[s], self.cap[s], st))
-            if running and self.pol[s] != "c" and p[s] != len(self.accepted[s]) - len(self.delivered[s]):
+            if self.pol[s] == "d" and running:
+                eff = self.effective(s)
+                if eff and p[s] == 0:
+                    bad.append("[pending] conflating source %d reports pending_items 0 after %s although the accepted effective "
+                               "delta(s) %s of its current window %s have not been delivered"
+                               % (s, st[:14], [x for x, e in self.win[s] if e][:4], [x for x, _ in self.win[s]][:6]))
+                elif not eff and p[s] != 0:
+                    bad.append("[pending] conflating source %d reports pending_items %d after %s although no accepted delta of "
+                               "its window %s had effect" % (s, p[s], st[:14], [x for x, _ in self.win[s]][:6]))
+                if eff and f == 0 and not self.rstop:
+                    bad.append("[lost] conflating source %d holds the accepted, effective, undelivered delta(s) %s, every thread is "
+                               "idle and the executor flag is clear after %s: the loop sleeps and nothing will wake it"
+                               % (s, [x for x, e in self.win[s] if e][:4], st[:14]))
+            if running and self.pol[s] not in "cd" and p[s] != len(self.accepted[s]) - len(self.delivered[s]):
                 bad.append("[prefix] source %d: pending_items %d but accepted-delivered = %d after %s"
                            % (s, p[s], len(self.accepted[s]) - len(self.delivered[s]), st))
             if running and not self.rstop and p[s] > 0 and f == 0:
@@ -893,6 +1153,8 @@ def _analyse_multi(case, out):
     k = S.k
     for s in range(k):
         acc, dlv = S.accepted[s], S.delivered[s]
+        if pols[s] == "d":
+            continue                     # checked per cycle against the fold of the window
         if pols[s] == "c":
             it = iter(acc)
             if not all(any(x == y for y in it) for x in dlv):
@@ -910,7 +1172,8 @@ def _analyse_multi(case, out):
             m2 = _MCOMP.match(e[1:])
             if e == "+stuck" or (m2 and m2.group(4) != "0"):
                 bad.append("[blocking] at the final stop a parked sender was %s" % ("not released" if e == "+stuck" else "accepted"))
-        acc2 = [[int(x) for x in a.strip("[]").split(",") if x] for a in m.group(2).split("/")]
+        acc2 = [([x for x in a.strip("[]").split(";") if x] if pols[i] == "d" else [int(x) for x in a.strip("[]").split(",") if x])
+                for i, a in enumerate(m.group(2).split("/"))]
         if acc2 != S.accepted:
             bad.append("[trace] summary accepted %s differs from the per-step results %s" % (acc2, S.accepted))
     if len({s for (s, _) in S.senders}) >= 2:
@@ -946,6 +1209,7 @@ def features(stream, case, out):
 def nontrivial(stream, case, out):
     if _is_multi(stream, case):
         f = _analyse_multi(case, out)[1]
-        return bool(f & {"backlog-nonlast-queue", "multi-source-cycle", "sender-parked", "refused-full", "kind-multi-threads"})
+        return bool(f & {"backlog-nonlast-queue", "multi-source-cycle", "sender-parked", "refused-full", "kind-multi-threads",
+                         "dict-noop-last", "dict-noop-after-effective"})
     f = _analyse(case, out)[1]
     return bool(f & {"multi-producer-delivery", "sender-parked", "refused-full", "kind-threads"})
